@@ -193,7 +193,7 @@ def check_input_tuples(input_data, context, preprocessor, args_for_sk_checks,
   #  normally we don't need to check_tuple_size too because tuple_size
   # shouldn't be able to be modified by any preprocessor
   check_tuple_size(input_data, tuple_size, context)
-  return input_data
+  return _as_floating(input_data)
 
 
 def check_input_classic(input_data, context, preprocessor, args_for_sk_checks):
@@ -220,6 +220,16 @@ def check_input_classic(input_data, context, preprocessor, args_for_sk_checks):
       make_error_input(111, input_data, context)
     else:
       make_error_input(101, input_data, context)
+  return _as_floating(input_data)
+
+
+def _as_floating(input_data):
+  """Formed points / tuples of integer (or boolean) dtype are converted to
+  float64: the learners and the distance computations take differences and
+  products of the coordinates, which wrap around in unsigned and narrow
+  integer arithmetic (uint8 pixels: 3 - 5 = 254)."""
+  if input_data.dtype.kind in 'iub':
+    return input_data.astype(np.float64)
   return input_data
 
 
